@@ -72,6 +72,7 @@ def run_c14(ctx):
             raise Inconclusive("negative control %s should violate an invariant of Conc.tla" % neg)
         ctx.tlc_runs.pop()
     ctx.tlc("MCConc", "conc", workers=8, timeout=3000)          # all interleavings, all invariants
+    proved = ctx.tlapm("ConcProof")                             # the same invariants for any number of goroutines and calls
     sched = ctx.tlc("MCConc", "conc_sched", name="conc_sched_sim", workers=4, simulate="num=%d" % (1500 if thorough else 75),
                     depth=100, timeout=3000, must_finish=False)
     d = ctx.path("conc")
@@ -92,7 +93,8 @@ def run_c14(ctx):
                                  "reason": "%d of %d recorded hook logs are not behaviours of Conc.tla" % (ntr - tr["cases"], ntr)})
         tr["n_violations"] += 1
     return {"exhaustive": True, "assumptions": [
-        "TLC 1.8.0; the Go race detector (go build -race) and Go's memory model",
+        "TLC 1.8.0; tlapm 1.6.0-pre with its SMT / Zenon / Isabelle / PTL back ends; the Go race detector (go build -race) and "
+        "Go's memory model",
         "hooks at the linearization points (build tag verif); the harness never synchronises goroutines inside the code under "
         "test (clock-driven schedules, per-goroutine logs), so the race detector sees the code's own synchronisation only",
         "Parse and Scan have no shared state by construction of the package (checked by the race detector in the bursts)",
@@ -100,12 +102,15 @@ def run_c14(ctx):
         "rule": "design level: all interleavings of three goroutines issuing five calls (lets, function-table look-ups, shared and "
                 "nil parameter maps) at the granularity of the hook points; invariants NoRace, InitOnce, ParamsUnchanged, "
                 "ResultIsFunctionOfInput, no deadlock; negative controls ('if m == nil' instead of sync.Once; scope aliasing the "
-                "caller's map) must fail. Conformance: schedules drawn by tlc -simulate are replayed on real goroutines in a -race "
+                "caller's map) must fail; for any number of goroutines and calls the inductive invariant of ConcProof.tla (no "
+                "race on the table or on a caller's map, single initialisation, reads of an initialised table only, parameter "
+                "maps untouched, the result of a call a function of that call alone) is checked by the TLA+ proof system "
+                "(258 obligations). Conformance: schedules drawn by tlc -simulate are replayed on real goroutines in a -race "
                 "build (first use of the function table in every round; clock-driven, no hand-offs); free rounds record the hook "
                 "points per goroutine and TLC searches an interleaving that is a behaviour of Conc.tla; bursts of 2/8/64 "
                 "goroutines with mixed Compile/Parse/Scan calls (incl. error cases) in fresh processes. Every result is compared "
                 "with the same call alone (nil, zero and empty options), parameter maps are deep-compared, any race report is a violation.",
-        "hook_logs_validated_by_TLC": tr["cases"],
+        "hook_logs_validated_by_TLC": tr["cases"], "tlapm_obligations_proved": proved,
     }}
 
 
